@@ -50,3 +50,28 @@ pub fn vread_and_check_packs(packs: Vec<IndexPackW>, w: &WarmWorld)
 { unimplemented!() }
 #[verifier::external_body]
 pub fn vapply_subset(packs: Vec<IndexPackW>) -> Vec<IndexPackW> { unimplemented!() }
+
+// ---- prune: warm-up of the packs to repack before the repack reads them ----
+pub struct PrunePlanW2 { pub _opaque: u64 }
+impl PrunePlanW2 {
+    // PrunePlan::repack_packs: the ids of the packs decided `Repack` (iterator chain, not under contract)
+    #[verifier::external_body]
+    pub fn repack_packs(&self) -> Vec<PackId> { unimplemented!() }
+}
+// ELIDED middle of prune_repository (unindexed packs, early index removal, the index rebuilding loop -- units of C02/C03):
+// yields the list of packs to repack
+#[verifier::external_body]
+pub fn vplan_execution_elided(repo: &VRepoW, plan: PrunePlanW2) -> RusticResult<Vec<PackId>> { unimplemented!() }
+#[verifier::external_body]
+pub fn vfinalize_index_w() -> RusticResult<()> { unimplemented!() }
+// the repack branch: reads the packs to repack from the (cold) store.  PRECONDITION: warmed up
+#[verifier::external_body]
+pub fn vrepack_w(packs: &Vec<PackId>, w: &WarmWorld) -> RusticResult<()>
+    requires w.warmed@,
+{ unimplemented!() }
+pub struct ConfigW { pub append_only: Option<bool> }
+impl VRepoW {
+    #[verifier::external_body]
+    pub fn config(&self) -> &ConfigW { unimplemented!() }
+}
+pub struct PruneOptsW2 { pub instant_delete: bool, pub early_delete_index: bool }
